@@ -113,36 +113,34 @@ def build_traces(path, tier, seed):
     g = 9.81
     bounds = {"C": [0.1, 0.3, 1.5, 3.0], "D": [0.1, 0.56, 1.5, 3.0], "E": [0.1, 1.0, 1.5, 3.0]}
     for site in ("C", "D", "E"):
-        z, r, nf = 0.3, 1.0, 1.0
-        if site == "D":
-            z, r, nf = 0.13, 1.3, 1.2
-        periods = sorted(set([0.0, 1e-6, 0.05, 0.2, 0.4, 0.7, 1.2, 2.0, 3.0, 4.5, 10.0] + [b * (1 + e) for b in bounds[site] for e in (-1e-9, 0.0, 1e-9)]))
-        for T in periods:
-            ch = float(ds.c_h_factor(float(T), site))
-            sd = float(ds.sd_nzs(float(T), site, z, r, nf))
-            add({"kind": "sd_ch", "T": enc(T), "ch": enc(ch), "sd": enc(sd), "znr": enc(z * nf * r)}, {"kind": "sd_ch", "site": site, "T": T, "ch": ch, "sd": sd})
-        arr = ds.c_h_factor(np.array(periods), site)
-        for T, a in zip(periods, arr):
-            add({"kind": "cont", "lo": enc(a), "hi": enc(ds.c_h_factor(float(T), site))}, {"kind": "cont", "site": site, "T": T, "what": "array vs scalar"})
-        for container in (np.arange(0, 6), [1, 2, 3, 4], np.array([0, 1, 3], dtype=np.int32), [0.5, 2]):
-            arr = ds.c_h_factor(container, site)
-            for T, a in zip(list(container), arr):
-                add({"kind": "cont", "lo": enc(a), "hi": enc(ds.c_h_factor(float(T), site))},
-                    {"kind": "cont", "site": site, "T": float(T), "what": "integer-typed period container vs scalar float"})
-        for b in [0.0] + bounds[site]:
-            lo_t, hi_t = (0.0, 1e-9) if b == 0.0 else (b * (1 - 1e-9), b * (1 + 1e-9))
-            add({"kind": "cont", "lo": enc(ds.c_h_factor(lo_t, site)), "hi": enc(ds.c_h_factor(hi_t, site))}, {"kind": "cont", "site": site, "boundary": b, "fn": "c_h_factor"})
-            if b > 0:
-                add({"kind": "cont", "lo": enc(ds.sd_nzs(lo_t, site, z, r, nf)), "hi": enc(ds.sd_nzs(hi_t, site, z, r, nf))}, {"kind": "cont", "site": site, "boundary": b, "fn": "sd_nzs"})
-        d_c = ds.sd_nzs(3.0, site, z, r, nf) * g / (2 * np.pi) ** 2
-        for x in (1.0, 0.5, 0.01, float(rng.uniform(0.05, 1.0))):
-            t = ds.t_eff(d_c * x * (1 - 1e-12 if x == 1.0 else 1.0), site, z, r, nf)
-            raised = False
-            try:
-                ds.t_eff(d_c * 1.001, site, z, r, nf)
-            except ValueError:
-                raised = True
-            add({"kind": "teff", "x": enc(x), "t": enc(t), "raised_above": raised}, {"kind": "teff", "site": site, "x": x, "t": float(t)})
+      for z, r, nf in ((0.3, 1.0, 1.0), (0.13, 1.3, 1.2), (float(rng.uniform(0.1, 0.6)), float(rng.uniform(0.25, 1.8)), float(rng.uniform(1.0, 1.72)))):
+            periods = sorted(set([0.0, 1e-6, 0.05, 0.2, 0.4, 0.7, 1.2, 2.0, 3.0, 4.5, 10.0] + [b * (1 + e) for b in bounds[site] for e in (-1e-9, 0.0, 1e-9)]))
+            for T in periods:
+                ch = float(ds.c_h_factor(float(T), site))
+                sd = float(ds.sd_nzs(float(T), site, z, r, nf))
+                add({"kind": "sd_ch", "T": enc(T), "ch": enc(ch), "sd": enc(sd), "znr": enc(z * nf * r)}, {"kind": "sd_ch", "site": site, "T": T, "ch": ch, "sd": sd})
+            arr = ds.c_h_factor(np.array(periods), site)
+            for T, a in zip(periods, arr):
+                add({"kind": "cont", "lo": enc(a), "hi": enc(ds.c_h_factor(float(T), site))}, {"kind": "cont", "site": site, "T": T, "what": "array vs scalar"})
+            for container in (np.arange(0, 6), [1, 2, 3, 4], np.array([0, 1, 3], dtype=np.int32), [0.5, 2]):
+                arr = ds.c_h_factor(container, site)
+                for T, a in zip(list(container), arr):
+                    add({"kind": "cont", "lo": enc(a), "hi": enc(ds.c_h_factor(float(T), site))},
+                        {"kind": "cont", "site": site, "T": float(T), "what": "integer-typed period container vs scalar float"})
+            for b in [0.0] + bounds[site]:
+                lo_t, hi_t = (0.0, 1e-9) if b == 0.0 else (b * (1 - 1e-9), b * (1 + 1e-9))
+                add({"kind": "cont", "lo": enc(ds.c_h_factor(lo_t, site)), "hi": enc(ds.c_h_factor(hi_t, site))}, {"kind": "cont", "site": site, "boundary": b, "fn": "c_h_factor"})
+                if b > 0:
+                    add({"kind": "cont", "lo": enc(ds.sd_nzs(lo_t, site, z, r, nf)), "hi": enc(ds.sd_nzs(hi_t, site, z, r, nf))}, {"kind": "cont", "site": site, "boundary": b, "fn": "sd_nzs"})
+            d_c = ds.sd_nzs(3.0, site, z, r, nf) * g / (2 * np.pi) ** 2
+            for x in (1.0, 0.5, 0.01, float(rng.uniform(0.05, 1.0))):
+                t = ds.t_eff(d_c * x * (1 - 1e-12 if x == 1.0 else 1.0), site, z, r, nf)
+                raised = False
+                try:
+                    ds.t_eff(d_c * 1.001, site, z, r, nf)
+                except ValueError:
+                    raised = True
+                add({"kind": "teff", "x": enc(x), "t": enc(t), "raised_above": raised}, {"kind": "teff", "site": site, "x": x, "t": float(t), "z": z, "r": r, "n": nf})
     write_ndjson(path, recs)
     return meta
 
